@@ -2,7 +2,7 @@
    The model of Model/C05_BeamModels.v is run by Coq on the inputs of a case and compared with what
    the real BeamCXLine / BeamEmissionLine / Plasma did on the same inputs. *)
 Require Import Cherab.Common.Qx.
-Require Import Cherab.Model.C05_BeamModels Cherab.Model.C05_History.
+Require Import Cherab.Model.C05_BeamModels Cherab.Model.C05_History Cherab.Model.C05_Mse.
 From Coq Require Import Qround.
 Open Scope Q_scope.
 
@@ -16,10 +16,14 @@ Definition sqrt_approx (x : Q) : Q :=
 
 (* ---- rate functions used by the stub atomic data: affine with non-negative dyadic coefficients
    (Qred only changes the representation of the value: Qred q == q) ---- *)
+(* c = [c0; c1; ...; threshold]: the table vanishes below a threshold of the interaction energy (threshold 0 or
+   absent: never for the energies >= 0 that occur) *)
 Definition aff3 (c : list Q) : rate3 :=
-  fun e n t => Qred (nth 0 c 0 + nth 1 c 0 * e + nth 2 c 0 * n + nth 3 c 0 * t).
+  fun e n t => if Qle_bool (nth 4 c 0) e
+               then Qred (nth 0 c 0 + nth 1 c 0 * e + nth 2 c 0 * n + nth 3 c 0 * t) else 0.
 Definition aff5 (c : list Q) : rate5 :=
-  fun e t n z b => Qred (nth 0 c 0 + nth 1 c 0 * e + nth 2 c 0 * t + nth 3 c 0 * n + nth 4 c 0 * z + nth 5 c 0 * b).
+  fun e t n z b => if Qle_bool (nth 6 c 0) e
+                   then Qred (nth 0 c 0 + nth 1 c 0 * e + nth 2 c 0 * t + nth 3 c 0 * n + nth 4 c 0 * z + nth 5 c 0 * b) else 0.
 
 (* (donor_metastable, coefficients of the BeamCXPEC, coefficients of the BeamPopulationRate of every
    species of the composition) *)
@@ -131,3 +135,55 @@ Fixpoint check_comp_history (l : list (sobj unit)) (steps : list (list cop * lis
 (* the probed notification table as a function *)
 Definition table_of (probed : list (Z * (bool * bool))) (k : Z) : bool * bool :=
   match find (fun e => (fst e =? k)%Z) probed with Some e => snd e | None => (false, false) end.
+
+(* ---- Stark multiplet: [observed] are the wavelength integrals of the real spectrum over the five nested windows
+   |lambda - central| < (j + 1/2) split, j = 0..3, and over everything; the model distributes the model's radiance ---- *)
+Definition check_mse (K : consts) (sps : list species) (pecs : list (list Q))
+           (beam_len beam_z att : Q) (dir : vec) (energy : Q) (ratios : list Q) (te ne : Q)
+           (code : Z) (observed : list Q) : bool :=
+  let o := bes_emission sqrt_approx K sps (map aff3 pecs) beam_len beam_z att dir energy in
+  let r := mkRatios (nth 0 ratios 0) (nth 1 ratios 0) (nth 2 ratios 0) (nth 3 ratios 0) in
+  (code_of o =? code)%Z &&
+  match o with
+  | AddLine rad => all2 closeq (map Qred (cumulative (mse_add_line te ne rad r))) observed
+  | _ => all2 closeq [0; 0; 0; 0; 0] observed
+  end.
+
+(* line setters: (is_none, hydrogen family, charge, upper, lower, observed code) *)
+Definition check_bes_line (e : bool * bool * Z * Z * Z * Z) : bool :=
+  match e with (n, f, ch, up, lo, code) => (setter_code (bes_line_setter n f ch up lo) =? code)%Z end.
+Definition check_bes_cache (e : Z * Z * Z * Z) : bool :=
+  match e with (b, l, ch, code) => (setter_code (bes_cache_check b l ch) =? code)%Z end.
+
+(* ---- the cached state machine of Model/C05_History.v run by Coq on a generated history ------------------------
+   A point is (plasma-space point, beam-space point); the fields of the harness depend on the position through the
+   fixed factors below (harness/c05_impl.py g_dens, g_temp, g_vel, g_b, g_att), or are constants. *)
+Definition pt := ((Q * Q * Q) * (Q * Q * Q))%type.
+Definition cx3 (p : Q * Q * Q) : Q := fst (fst p).
+Definition cy3 (p : Q * Q * Q) : Q := snd (fst p).
+Definition cz3 (p : Q * Q * Q) : Q := snd p.
+Definition g_dens (p : Q * Q * Q) : Q := 1 + (1 # 4) * cx3 p + (1 # 8) * cy3 p + (1 # 2) * cz3 p.
+Definition g_temp (p : Q * Q * Q) : Q := 1 + (1 # 2) * cx3 p + (1 # 4) * cz3 p.
+Definition g_vel (p : Q * Q * Q) : Q := 1 + (1 # 8) * cx3 p + (1 # 4) * cy3 p.
+Definition g_b (p : Q * Q * Q) : Q := 1 + (1 # 4) * cy3 p + (1 # 8) * cz3 p.
+Definition g_att (p : Q * Q * Q) : Q := 1 + (1 # 2) * cx3 p + (1 # 4) * cy3 p + (1 # 8) * cz3 p.
+Definition scale3 (v : vec) (k : Q) : vec := (Qred (vx v * k), Qred (vy v * k), Qred (vz v * k)).
+Definition mkobj (el ch : Z) (n0 t0 : Q) (v0 : vec) (fn : bool) : sobj pt :=
+  mkSobj pt el ch (fun p => if fn then (Qred (n0 * g_dens (fst p)), Qred (t0 * g_temp (fst p)), scale3 v0 (g_vel (fst p)))
+                            else (n0, t0, v0)).
+Definition bfield_fn (b0 : vec) (fn : bool) : pt -> vec := fun p => if fn then scale3 b0 (g_b (fst p)) else b0.
+Definition att_fn (att0 : Q) : pt -> Q := fun p => Qred (att0 * g_att (snd p)).
+Definition coeffs_of {A} (eqb : A -> A -> bool) (tab : list (A * list Q)) (k : A) : list Q :=
+  match find (fun e => eqb (fst e) k) tab with Some e => snd e | None => [] end.
+Definition eq3 (a b : Z * Z * Z) : bool :=
+  (fst (fst a) =? fst (fst b))%Z && (snd (fst a) =? snd (fst b))%Z && (snd a =? snd b)%Z.
+Definition eq2 (a b : Z * Z) : bool := (fst a =? fst b)%Z && (snd a =? snd b)%Z.
+Definition mkprov (rates : list (Z * list Q)) (pop : list (Z * Z * Z * list Q)) (pec : list (Z * Z * list Q)) : provider :=
+  mkProvider (map (fun r => (fst r, aff5 (snd r))) rates)
+             (fun m el ch => aff3 (coeffs_of eq3 pop (m, el, ch)))
+             (fun el ch => aff3 (coeffs_of eq2 pec (el, ch))).
+(* every evaluation of the live objects, in order: outcome kind exactly, radiance at the tolerance *)
+Definition check_machine (K : consts) (probed : list (Z * (bool * bool))) (c : config pt) (evs : list (event pt))
+           (expected : list (Z * Q)) : bool :=
+  all2 (fun o e => cmp_outcome o (fst e) (snd e))
+       (run_live pt sqrt_approx K (table_of probed) evs (mkState pt c None None)) expected.
